@@ -118,6 +118,10 @@ class C13(Prop):
         out.append("/-- C: first_cmd_in_buf `if (ip->text_end > MAX_TEXT - N)` -/\ndef cutMargin : Nat := %d" % v)
         v = need("ascii space", r"text_space = MAX_TEXT - ip->text_end - (\d+);", count=1)
         out.append("/-- C: get_user_data PORT_ASCII/BINARY `text_space = MAX_TEXT - ip->text_end - N` -/\ndef asciiReserve : Nat := %d" % v)
+        ms = re.findall(r"if \(to \+ (\d+) >= MAX_TEXT - (\d+)\)\s*\n\s*return;", src)
+        if len(ms) != 1:
+            raise X.TieBroken("guard:reframe room test", "cannot locate `if (to + N >= MAX_TEXT - M) return;` of reframe_single_char_input (matched %r)" % (ms,))
+        out.append("/-- C: reframe_single_char_input `if (to + N >= MAX_TEXT - M) return;` -/\ndef reframeNeed : Nat := %s\ndef reframeReserve : Nat := %s" % ms[0])
         need("console guard", r"if \(ip->text_end \+ len >= (MAX_TEXT)(?: && !cmd_in_buf \(ip\))?\)", str, count=2)
         # statement order (T4): the PORT_ASCII line loop and add_console_line's checks, as the order of named
         # statements in the source text; the model states the order it implements and a bridging lemma compares
@@ -161,10 +165,115 @@ class C13(Prop):
         banner = "\n[%s-%s] \n" % (pk.group(1), ve.group(1))
         out.append("/-- C: AYT answer `add_vmessage (\"\\n[%%s-%%s] \\n\", PACKAGE, VERSION)` as bytes -/\ndef aytBanner : List Nat := [%s]"
                    % ", ".join(str(b) for b in banner.encode()))
+        out.append(self.cc_table(ctx))
         return "\n".join(out)
 
+    # ---- tie: the transition table of copy_chars, read off the real function ------------------------------
+    def cc_configs(self):
+        """(ts, cr, single, sb_pos, fill, sb_buf prefix) - every value of `state & TS_STATE_MASK` (0..15: the eight
+        TS_* codes and the eight values no `case` handles) x TS_CR_SEEN x SINGLE_CHAR; sub-negotiation states also with
+        sb_pos = SB_SIZE-1 / SB_SIZE, TS_SB_IAC also with every kind of payload the IAC SE handler distinguishes"""
+        tt_is = bytes([TT, 0]) + b"xt"
+        slc = bytes([LM, 3, 1, 2, 3, 2, 0x82, 5, 200, 1, 65, 3, 3, 5, 5, 0, 1, 6, 2, 65, 7, 1, 127, 120, 2, 3, 0, 9, 0, 8, 2, 4, 9, 9])
+        se = [("%d" % len(x), 0, x) for x in (
+            tt_is, bytes([TT, 1]), bytes([TT]), bytes([NAWS, 0, 80, 0, 24]), bytes([NAWS, 1]), bytes([LM, 1, 3]), bytes([LM, 1, 4]),
+            slc, slc[:5], slc[:4], bytes([LM, 9, 1]), bytes([70, 65, 66]), bytes([70, 65, 0, 66]))]
+        se += [("S", 65, tt_is[:2]), ("S", 66, b"")]
+        C = []
+        for ts in range(16):
+            for cr in (0, 1):
+                for single in (0, 1):
+                    vs = [("0", 0, b"")]
+                    if ts == 1:
+                        vs.append(("3", 0, bytes([1, 2, 3])))
+                    if ts in (6, 7):
+                        vs += [("S-1", 65, b""), ("S", 65, b"")]
+                    if ts == 7 and cr == 0:
+                        vs += se
+                    for sbpos, fill, pre in vs:
+                        C.append((ts, cr, single, sbpos, fill, pre))
+        return C
+
+    def cc_table(self, ctx):
+        try:
+            self.exe = E.compile_harness("c13", [os.path.join(E.VERIF, "harness/c13/c13.c")], exclude_objs=("comm.c.o",))
+        except E.BuildError as e:
+            raise X.TieBroken("cc-table", "the harness does not build against the source: %s" % str(e)[-400:])
+        rd = os.path.join(ctx.rundir, "cctable")
+        conf = E.make_mudlib(rd)
+        cases = [E.Case("cc%d" % i, ["port telnet", "ccprobe %d %d %d %s %d %s" % (ts, cr, single, sbpos, fill, hx(pre))])
+                 for i, (ts, cr, single, sbpos, fill, pre) in enumerate(self.cc_configs())]
+        res = E.run_harness(self.exe, conf, cases, rd)
+
+        def sym(vals, b):
+            return [256 if v == b else v for v in vals]
+
+        def lst(xs):
+            return "[" + ", ".join(str(x) for x in xs) + "]"
+        cfgs = []
+        for c in cases:
+            lines = res.get(c.id, [])
+            cfg = [l.split() for l in lines if l.startswith("cfg ")]
+            rs = [l.split() for l in lines if l.startswith("r ")]
+            if len(cfg) != 1 or len(rs) != 256 or any(len(r) != 10 for r in rs) or any(l.startswith(("crash", "sanitizer")) for l in lines):
+                raise X.TieBroken("cc-table", "copy_chars transition probe failed for `%s`: %s" % (c.lines[1], " / ".join(lines[-3:])[:400]))
+            rows = []
+            for r in rs:
+                b = int(r[1])
+                unh = lambda h: [] if h == "-" else list(bytes.fromhex(h))
+                sbd = [] if r[8] == "-" else [tuple(int(x) for x in d.split(":")) for d in r[8].split(",")]
+                cbs = []
+                if r[9] != "-":
+                    for cb in r[9].split(","):
+                        f = cb.split(":")
+                        cbs.append((2, [int(f[1]), int(f[2])]) if f[0] == "n" else ({"t": 0, "s": 1}[f[0]], unh(f[1])))
+                key = (int(r[2]), int(r[3]), int(r[4]), int(r[5]), tuple(sym(unh(r[6]), b)), tuple(sym(unh(r[7]), b)),
+                       tuple((i, 256 if v == b else v) for i, v in sbd), tuple((k, tuple(a)) for k, a in cbs))
+                if rows and rows[-1][2] == key and rows[-1][1] == b - 1:
+                    rows[-1][1] = b
+                else:
+                    rows.append([b, b, key])
+            t = cfg[0]
+            pre = [] if t[6] == "-" else list(bytes.fromhex(t[6]))
+            rtxt = ",\n    ".join(
+                "{ lo := %d, hi := %d, st := %d, sbPos := %d, fl := %d, lm := %d, out := %s, tx := %s, sbd := %s, cbs := %s }"
+                % (lo, hi, k[0], k[1], k[2], k[3], lst(k[4]), lst(k[5]), lst("(%d, %d)" % d for d in k[6]),
+                   lst("(%d, %s)" % (kk, lst(a)) for kk, a in k[7])) for lo, hi, k in rows)
+            cfgs.append("  { ts := %s, cr := %s, single := %s, sbPos := %s, sbFill := %s, sbPre := %s, rows := [\n    %s] }"
+                        % (t[1], t[2], t[3], t[4], t[5], lst(pre), rtxt))
+        return ("""/-- one row of the transition table of copy_chars: input bytes lo..hi, in the configuration of the enclosing `CcCfg`,
+    leave `ip->state = st`, `sb_pos = sbPos`, iflags (masked) `fl`, `telnet_sb_lm_mode[4] = lm`, store `out`, send `tx`,
+    change the listed `sb_buf` cells and make the callbacks `cbs` (0 terminal_type, 1 telnet_suboption, 2 window_size);
+    the value 256 stands for the input byte itself -/
+structure CcRow where
+  lo : Nat
+  hi : Nat
+  st : Nat
+  sbPos : Nat
+  fl : Nat
+  lm : Nat
+  out : List Nat
+  tx : List Nat
+  sbd : List (Nat × Nat)
+  cbs : List (Nat × List Nat)
+/-- a decoder configuration: `state & TS_STATE_MASK`, TS_CR_SEEN, SINGLE_CHAR, sb_pos, sb_buf = sbPre padded with sbFill up to
+    sb_pos (zero behind), `telnet_sb_lm_mode[4] = MODE_ACK` -/
+structure CcCfg where
+  ts : Nat
+  cr : Nat
+  single : Nat
+  sbPos : Nat
+  sbFill : Nat
+  sbPre : List Nat
+  rows : List CcRow
+/-- C: the transition table of `copy_chars`, obtained by running the real function on every byte value in every
+    configuration (harness/c13/c13.c `ccprobe`) -/
+def ccTable : List CcCfg := [
+""" + ",\n".join(cfgs) + "]")
+
     def prepare(self, ctx):
-        self.exe = E.compile_harness("c13", [os.path.join(E.VERIF, "harness/c13/c13.c")], exclude_objs=("comm.c.o",))
+        if not getattr(self, "exe", None):      # normally built by gen_extra (cc_table)
+            self.exe = E.compile_harness("c13", [os.path.join(E.VERIF, "harness/c13/c13.c")], exclude_objs=("comm.c.o",))
         self.conf = E.make_mudlib(ctx.rundir)
 
     def run_impl(self, ctx, cases):
